@@ -1,4 +1,5 @@
 import Pm.ConfigProof
+import Pm.AliasConfig
 /-! # C13 — an accepted configuration is an unambiguous node-to-plug map; a configuration that breaks a rule is refused
 
 Theorems over `Pm.ConfigModel.build` (`Pm/ConfigModel.lean`), the executable mirror of `makeDevice` / `makeNode` / `makeAlias`
@@ -11,7 +12,8 @@ hostlist facts used: `find_built` (membership is complete on a list built by pus
 All theorems hold for ALL specification lists and ALL line lists (no bound on their number, on the names, on the ranges).
 
 Contents: 1. accepted configurations (`C13_functional`, `C13_nodes_distinct`, `C13_injective`, `C13_hardwired`, `C13_ith`,
-`C13_ith_hardwired`, `C13_ith_free`, `C13_alias`, `C13_alias_line`, `C13_nodes_listing`) ▸ 2. one rejection theorem per rule
+`C13_ith_hardwired`, `C13_ith_free`, `C13_alias`, `C13_alias_line`, `C13_alias_names_distinct`, `C13_alias_lookup`,
+`C13_alias_expansion`, `C13_alias_request_accepted`, `C13_nodes_listing`) ▸ 2. one rejection theorem per rule
 (`C13_reject_…`): the earlier lines are fine, line `k` breaks the rule ⇒ `build` refuses with that class at index `k`
 ▸ 3. behaviour worth knowing (`C13_duplicate_device_accepted`, `C13_empty_node_string_accepted`).
 
@@ -144,6 +146,96 @@ theorem C13_alias_line (specs : List Spec) (pre post : List Stmt) (name : Name) 
   alias_line h
 
 example : accepts sampleSpecs (sampleStmts.take 6 ++ .alias (S "all") (S "t[1-2],n[09-10]") :: sampleStmts.drop 7) = true := by
+  decide +kernel
+
+/-! ### aliases in requests
+
+`aliasTable cfg` (`Pm/AliasConfig.lean`) is the alias list of the configuration as the request path of the daemon model holds it
+(`Pm.Daemon.Cfg.aliases`): for every alias, in list order, its name and its hosts in iteration order.  `expAliases` is the mirror of
+`conf_exp_aliases` (`Pm/Daemon.lean`; closed form, membership, no recursion: `Pm/Props/C01.lean`).  `isAlias tbl n`: `n` is the
+name of an alias of the table; `standsFor tbl n`: the hosts of the alias `n`, or `[n]` when `n` is not an alias name;
+`membersOf tbl n`: the hosts of the alias `n`, `[]` when there is none. -/
+
+open Pm.ConfigModel.AliasCfg
+open Pm.Daemon (aliasOf expAliases)
+open Pm.Daemon.AliasPf (isAlias membersOf standsFor)
+
+/-- **Alias names are pairwise distinct** (`_alias_create` refuses a second alias of a name), so which alias a name means does
+    not depend on the order of the alias list. -/
+theorem C13_alias_names_distinct (specs : List Spec) (stmts : List Stmt) (cfg : Cfg) (h : build specs stmts = .ok cfg) :
+    (cfg.aliases.map (·.name)).Nodup :=
+  alias_names_nodup h
+
+/-- `list_find_first(conf_aliases, _alias_match, n)` answers with the hosts of THE alias called `n`. -/
+theorem C13_alias_lookup (specs : List Spec) (stmts : List Stmt) (cfg : Cfg) (h : build specs stmts = .ok cfg)
+    (n : Name) (hs : List Name) :
+    aliasOf (aliasTable cfg) n = some hs ↔ ∃ a ∈ cfg.aliases, a.name = n ∧ expand a.hl = hs :=
+  aliasOf_table_iff h n hs
+
+/-- **Alias expansion on an accepted configuration.**  For every list `names` of typed names:
+    1. as a multiset, `conf_exp_aliases` yields the typed names that are not alias names plus, for every typed occurrence of an
+       alias name, the hosts of that alias (`Perm`, and the same by counting);
+    2. the names `_hostlist_create_validated` reports as unknown (`209 No such nodes`) are the typed names that are neither
+       alias names nor nodes, in the order typed — a host of an alias is never reported;
+    3. if every typed name is an alias name, every name of the result is a configured node (`conf_node_exists` holds and it is
+       in the node list), so the unknown list is empty: a request naming only aliases never yields `209`. -/
+theorem C13_alias_expansion (specs : List Spec) (stmts : List Stmt) (cfg : Cfg) (h : build specs stmts = .ok cfg)
+    (names : List Name) :
+    ((expAliases (aliasTable cfg) names).Perm (names.flatMap (standsFor (aliasTable cfg))) ∧
+     ∀ x, (expAliases (aliasTable cfg) names).count x =
+        (names.filter (fun n => !isAlias (aliasTable cfg) n)).count x + (names.flatMap (membersOf (aliasTable cfg))).count x) ∧
+    (expAliases (aliasTable cfg) names).filter (fun n => (find cfg.nodes n).isNone) =
+      (names.filter (fun n => !isAlias (aliasTable cfg) n)).filter (fun n => (find cfg.nodes n).isNone) ∧
+    ((∀ n ∈ names, isAlias (aliasTable cfg) n = true) →
+      (∀ x ∈ expAliases (aliasTable cfg) names, (find cfg.nodes x).isSome = true ∧ x ∈ expand cfg.nodes) ∧
+      (expAliases (aliasTable cfg) names).filter (fun n => (find cfg.nodes n).isNone) = []) := by
+  refine ⟨⟨Pm.Daemon.AliasPf.expAliases_perm _ _, Pm.Daemon.AliasPf.count_expAliases _ _⟩,
+    bad_names_find h cfg.nodes (fun _ hx => hx) names, fun hal => ⟨only_aliases_all_nodes h names hal, ?_⟩⟩
+  apply filter_nil_of_all
+  intro x hx
+  have := (only_aliases_all_nodes h names hal x hx).1
+  cases hf : find cfg.nodes x with
+  | none => rw [hf] at this; cases this
+  | some i => rfl
+
+/-- The same seen from the daemon model.  `plCmd` is the branch of `parseLine` (`_parse_input`) for a command with an argument
+    (`ClientPf.parseLine_eq`).  In a daemon `w` that holds the alias table of the accepted configuration and whose node list knows
+    (at least) its nodes: a well-formed target expression that expands to alias names only is not answered `209`; the request is
+    handed to `install` with the hosts of the typed aliases, in the order typed, as its target list. -/
+theorem C13_alias_request_accepted (specs : List Spec) (stmts : List Stmt) (cfg : Cfg) (h : build specs stmts = .ok cfg)
+    (w : Pm.Daemon.W) (c : Pm.Daemon.Cli) (com : Pm.Client.Com) (arg : Pm.Client.Bytes) (hl : Hostlist)
+    (hals : w.cfg.aliases = aliasTable cfg)
+    (hnodes : ∀ x, (find cfg.nodes x).isSome = true → (find w.cfg.nodes x).isSome = true)
+    (hc : Pm.Daemon.createR (Pm.Daemon.toChars arg) = .ok hl) (hal : ∀ n ∈ expand hl, isAlias (aliasTable cfg) n = true) :
+    Pm.Daemon.ClientPf.plCmd w c com arg = Pm.Daemon.install w c com (expAliases (aliasTable cfg) (expand hl)) ∧
+    expAliases (aliasTable cfg) (expand hl) = (expand hl).flatMap (membersOf (aliasTable cfg)) := by
+  refine ⟨plCmd_only_aliases h w c com arg hl hals hnodes hc hal, ?_⟩
+  rw [Pm.Daemon.AliasPf.expAliases_spec, filter_nil_of_all (fun x hx => by simp [hal x hx]), List.nil_append]
+
+/-- nodes t0…t7, u0…u3 on a device with free plug names; aliases `rackt = t0,t1,t2,t3`, `mix = t7,u1,u2`, `dupl = t1,t1` -/
+def aliasStmts : List Stmt := [
+  .device (S "d1") (S "fr"), .node (S "t[0-7]") (S "d1") none, .node (S "u[0-3]") (S "d1") none,
+  .alias (S "rackt") (S "t[0-3]"), .alias (S "mix") (S "t7,u[1-2]"), .alias (S "dupl") (S "t1,t1")]
+
+/-- what the accepted configuration makes of a list of typed names: the target list, and the names that would be reported unknown -/
+def aliasRun (typed : List String) : Option (List String × List String) :=
+  match build sampleSpecs aliasStmts with
+  | .ok c => some (((expAliases (aliasTable c) (typed.map S)).map String.ofList),
+                   ((expAliases (aliasTable c) (typed.map S)).filter fun n => (find c.nodes n).isNone).map String.ofList)
+  | .error _ => none
+
+-- the table is in list order (aliases are prepended), hosts in iteration order, repetitions kept
+example : (match build sampleSpecs aliasStmts with
+    | .ok c => some ((aliasTable c).map fun p => (String.ofList p.1, p.2.map String.ofList)) | .error _ => none)
+  = some [("dupl", ["t1", "t1"]), ("mix", ["t7", "u1", "u2"]), ("rackt", ["t0", "t1", "t2", "t3"])] := by decide +kernel
+-- `on rackt,u3`
+example : aliasRun ["rackt", "u3"] = some (["u3", "t0", "t1", "t2", "t3"], []) := by decide +kernel
+-- `status mix,mix`: only alias names typed, nothing unknown
+example : aliasRun ["mix", "mix"] = some (["t7", "u1", "u2", "t7", "u1", "u2"], []) := by decide +kernel
+-- `off t2,rackt`: t2 twice
+example : aliasRun ["t2", "rackt"] = some (["t2", "t0", "t1", "t2", "t3"], []) := by decide +kernel
+-- `on zz9,rackt,dupl,yy`: the unknown names are the typed non-alias names that are not nodes, in the order typed
+example : aliasRun ["zz9", "rackt", "dupl", "yy"] = some (["zz9", "yy", "t0", "t1", "t2", "t3", "t1", "t1"], ["zz9", "yy"]) := by
   decide +kernel
 
 /-- **The node listing is exactly the node lines.**  The node list of an accepted configuration (what the `nodes` query
